@@ -85,6 +85,9 @@ func (s *Server) cmdFollow(msg *Message) (res resp.Value, err error) {
 	s.config.write(false)
 	if update {
 		s.followc.Add(1)
+		// "caught up once" was said of the previous leader: reads are held
+		// back again until the new leader's log has been applied
+		s.fcupflags.Store(0)
 		if s.config.followHost() != "" {
 			log.Infof("following new host '%s' '%s'.", host, sport)
 			go s.follow(s.config.followHost(), s.config.followPort(),
